@@ -8,7 +8,8 @@ from gen import cfmt as G
 def main():
     chk = common.Check('C11')
     import cfmt_common as C
-    proved = chk.prove('I18n.Props.C11', generated=('cfmt',))
+    proved = chk.prove('I18n.Props.C11', generated=('cfmt', 'cfmtconv'))
+    tie_ok = C.prove_tie(chk)
     problems = ' '.join(chk.lean.problems)
     driver_ok = os.path.exists(common.driver_path()) and not any('untranslatable' in s for s in chk.lean.translation.values()) \
         and 'Driver' not in problems and 'I18n.Model' not in problems and 'I18n.Spec' not in problems
@@ -36,7 +37,7 @@ def main():
 
     # falsifier: the property itself on the real code (independent reference + glibc), disagreeing inputs first
     budget = (400000 if chk.thorough else 60000) * (4 if chk.broken else 1)
-    order = list(disagreeing) + fam['boundary'] + fam['corpus'] + fam['context']
+    order = list(disagreeing) + fam['boundary'] + fam['corpus'] + fam['context'] + fam['regex']
     rng = chk.rng
     pools = [fam['multi'], fam['malformed'], fam['single']]
     mixed = []
@@ -49,9 +50,10 @@ def main():
         extra = budget - len(order)
         if extra > 0:
             order += G.singles(rng, extra)
-    cex, tried = C.falsify(chk, order, budget + len(disagreeing) + len(fam['boundary']) + len(fam['corpus']) + len(fam['context']))
+    cex, tried = C.falsify(chk, order, budget + len(disagreeing) + len(fam['boundary']) + len(fam['corpus']) + len(fam['context']) + len(fam['regex']))
     chk.evaluations += tried
     chk.coverage['falsifier'] = {'strings_vs_printf_reference_and_glibc': tried, 'glibc_available': C.glibc_count('%d') is not None,
+                                 'glibc_types_compared': C.STATS['glibc_types_compared'], 'glibc_types_platform_lp64': C.lp64(),
                                  'found': cex is not None}
     if cex is None and chk.broken:
         chk.violation('proof obligation or correspondence no longer checks', {'broken': chk.broken}, no_input=True)
@@ -63,20 +65,27 @@ def main():
              'boundary widths); gap-free permutations; one/two-edit mutants and garbage; a fixed boundary list (4095..4097 arguments, '
              '4299..4301-digit numerals); non-trivial = distinct accepted string with at least one argument',
         trusted=['Lean 4.33 kernel', 'axioms: propext, Classical.choice, Quot.sound only',
-                 'tools/translate/cfmt2lean.py (probes FormatString on single directives; factorisation of the probes is checked there)',
-                 'the scanner standing for _directive_re is hand-written: regex text pinned (regex_pin), behaviour tied by the cfmt-* streams',
+                 'tools/translate/cfmt2lean.py (probes FormatString on single directives; factorisation of the probes is checked there; dumps the '
+                 're._parser tree of _directive_re with categories expanded) and tools/translate/cfmtconv2lean.py (statement-by-statement translation of the '
+                 'decision code of Conversion.__init__; construct table in its header) with the kit Model/CFmtKit.lean',
+                 'Spec.BraceRe.bt (shared with C13) as a model of the sre engine: ordered alternation, greedy repeats, captures restored on backtracking',
+                 'the first half of Conversion.__init__ (length x conversion -> type) is tied by exhaustive probing; the gap/type loops after the scan are hand-modelled (cfmt-* streams)',
                  'Spec.Printf is my reading of printf(3)/C99 7.19.6.1/POSIX; it is compared on every run with an independent Python '
-                 'reference written from the man page and with glibc parse_printf_format (argument count) through the real code',
+                 'reference written from the man page and with glibc parse_printf_format (argument count and PA_* argument types, documented differences excluded) through the real code',
                  'the correspondence harness (canonicalisers in tools/checks/cfmt_common.py, Driver/CFmt.lean)'],
         explanation='Proved for all strings: parse_sound (accepted => rendering of Valid items, arguments = signature), items_unique '
                     '(unique readability: the scanner inverts render), parse_error_kinds (a failure is an own Error class or the int() ValueError), '
-                    'warnings_inert, star_args, ctables_pin / regex_pin / model_checks_pin (probed tables = Spec.Printf tables, by decide). '
+                    'warnings_inert, star_args, ctables_pin / model_checks_pin (probed tables = Spec.Printf tables, by decide), regex_pin (matching flags, group names). '
+                    'TIE (Props/C11Tie.lean, regenerated from the current source each run): directive_regex (the scanner step = first match of the LIVE parse tree of '
+                    '_directive_re under backtracking semantics, end and all group spans, for every string and position; through the verified canonicaliser ReKit.norm), '
+                    'segmentation_is_finditer + match_decodes + error_prefix_printable (the finditer loop of FormatString.__init__ with its two Error tests, items decoded from '
+                    'the named groups = CFmt.scan), generated_conversion_eq_model / generated_add_argument_eq_model (decision code of Conversion.__init__ and FormatString.add_argument translated from source = the model). '
                     'Proved for every string: parse_complete, parse_iff_valid (acceptance iff validity, with the signature), parse_error_own (own errors only), '
                     'via int_unlimited (sys.get_int_max_str_digits() as dumped from the running tool is 0: lib/__init__.py lifts the limit since fix: 871d4d7) '
                     'and the _partial theorems, which hold for any limit under "no digit run longer than the limit". On the pinned tree the unrestricted '
                     'clauses were false (witness "%." + "0"*4301 + "d": ValueError from int()); the witness is replayed on the real code each run '
-                    '(fixed entry in known_findings.json). OUTSTANDING: nothing stated in the design is missing; the language of the regex is pinned '
-                    'by text, not proved against an Re term.')
+                    '(fixed entry in known_findings.json). OUTSTANDING: nothing stated in the design is missing. Correspondence-level only: the type half of '
+                    'Conversion.__init__ (exhaustively probed), the gap and one-type loops (cfmt-* streams).')
 
 if __name__ == '__main__':
     common.main_wrapper(main)
